@@ -1,3 +1,6 @@
 pub mod gen_packet;
 pub mod packet;
 pub mod util;
+pub mod clock;
+pub mod strategy;
+pub mod cksum;
